@@ -88,6 +88,12 @@ func init() {
 			return out
 		},
 		Weight: -1,
+		Setup: func(r *Run) simrt.Config {
+			c := BaseConfig()
+			c.Horizon = time.Second
+			c.StepCap = 8 << 20 // all 4^8 programs run inside one simulated execution; every Ack/Nack is a scheduling step
+			return c
+		},
 		Body: func(r *Run) {
 			kind := r.T.Int(3)
 			k := r.T.Int(9) // the forced prefix carries k directly
